@@ -71,8 +71,9 @@ class JSONField(ABC):
         :return:
         """
         d = self.__dict__.copy()
+        fresh = self.__class__().__dict__
         for k in self.__dict__:
-            if d[k] is None or d[k] == 0:
+            if d[k] is None or d[k] == fresh.get(k):
                 d.pop(k)
         if len(d) == 0:
             return ''
@@ -101,8 +102,9 @@ class JSONField(ABC):
         :return:
         """
         d = self.__dict__.copy()
+        fresh = self.__class__().__dict__
         for k in self.__dict__:
-            if d[k] is None or d[k] == 0:
+            if d[k] is None or d[k] == fresh.get(k):
                 d.pop(k)
         if len(d) == 0:
             return None
